@@ -165,6 +165,16 @@ def check (m : Mon) (pre : State) (op : Op) (res : String) (post : State) : Mon 
              q.rules.map (fun r => (r.denom, r.total)) == total &&
              q.rules.all (fun r => r.remaining == r.total && r.rpb == amountOf rpb r.denom && r.rps.raw == 0)) then
           fails := fails ++ [s!"clause=create-budget pool={id}"]
+      | .cpPass pid =>
+        -- a passed community-pool proposal: the pool is owned by the distribution module account, not
+        -- editable, starts now, and its budget is exactly the escrowed funds of the proposal
+        match AMap.get? pre.cp.escrow pid with
+        | some e =>
+          if !(res == "ok" && q.creator == distrAcc && !q.editable && q.start == pre.height && q.locked == 0 &&
+               q.rules.map (fun r => (r.denom, r.total)) == mergeCoins e.applied e.selfBond &&
+               q.rules.all (fun r => r.remaining == r.total && r.rps.raw == 0 && r.rpb > 0)) then
+            fails := fails ++ [s!"clause=cp-pool-budget pool={id}"]
+        | none => fails := fails ++ [s!"clause=cp-pool-without-escrow pool={id}"]
       | _ => fails := fails ++ [s!"clause=pool-appeared pool={id}"]
     | some p =>
       let refundStep := isRefundStep pre op res post id
@@ -245,6 +255,71 @@ def check (m : Mon) (pre : State) (op : Op) (res : String) (post : State) : Mon 
       | _ => 0
     if (post.bank.balOf collectorAcc d : Int) != (pre.bank.balOf collectorAcc d : Int) + released - paidOut then
       fails := fails ++ [s!"clause=collector-ledger denom={d}"]
+  -- community-pool farms: every escrow is settled exactly once, to the right places
+  let dlt (a : Addr) (d : Denom) : Int := (post.bank.balOf a d : Int) - pre.bank.balOf a d
+  let dcp (d : Denom) : Int := (C05.cpoolOf post d : Int) - C05.cpoolOf pre d
+  let cpds : List Denom := (C05.allDenoms pre post ++ C05.cpDenoms pre post).eraseDups
+  let U : Int := (decUnit : Int)
+  match op with
+  | .cpSubmit proposer _ c deposit =>
+    if res == "ok" then
+      let pid := pre.cp.nextId
+      -- the observation does not carry gov's sequence: the new info is the one that was not there before
+      let news := post.cp.escrow.filter fun e => (AMap.get? pre.cp.escrow e.1).isNone
+      match news with
+      | [(_, e)] =>
+        let _ := pid
+        if !(e.proposer == proposer && e.applied == c.applied && e.selfBond == c.selfBond) then
+          fails := fails ++ ["clause=cp-submit-info"]
+        for d in cpds do
+          let sb : Int := C05.coinSum c.selfBond d
+          let ap : Int := C05.coinSum c.applied d
+          let dep : Int := C05.coinSum deposit d
+          if !(dlt escrowAcc d == sb + ap && dlt proposer d == -sb - dep && dlt distrAcc d == -ap &&
+               dcp d == -ap * U && dlt govAcc d == dep && dlt farmAcc d == 0) then
+            fails := fails ++ [s!"clause=cp-submit-ledger denom={d}"]
+      | _ => fails := fails ++ ["clause=cp-submit-info"]
+  | .fundCp sender amt =>
+    if res == "ok" then
+      for d in cpds do
+        let a : Int := C05.coinSum amt d
+        if !(dlt distrAcc d == a && dcp d == a * U && dlt sender d == -a && dlt escrowAcc d == 0) then
+          fails := fails ++ [s!"clause=fund-cp-ledger denom={d}"]
+  | .cpPass pid | .cpReject pid | .cpFailDeposit pid =>
+    if res == "ok" then
+      match AMap.get? pre.cp.escrow pid, AMap.get? pre.cp.props pid with
+      | some e, some pr =>
+        let st := (AMap.get? post.cp.props pid).map (·.status)
+        if (AMap.get? post.cp.escrow pid).isSome then fails := fails ++ [s!"clause=escrow-not-settled id={pid}"]
+        let wantStatus : Bool := match op with
+          | .cpPass _ => st == some .passed || st == some .failed
+          | .cpReject _ => st == some .rejected
+          | _ => st == none
+        if !wantStatus then fails := fails ++ [s!"clause=proposal-status id={pid}"]
+        let executed := st == some .passed
+        for d in cpds do
+          let sb : Int := C05.coinSum e.selfBond d
+          let ap : Int := C05.coinSum e.applied d
+          let dep : Int := if d = depositDenom then (pr.deposit : Int) else 0
+          if executed then
+            -- pass → pool budget: escrow collector −, farm module account +, nothing to anyone else
+            if !(dlt escrowAcc d == -(sb + ap) && dlt farmAcc d == sb + ap && dlt distrAcc d == 0 && dcp d == 0 &&
+                 dlt e.proposer d == dep && dlt govAcc d == -dep) then
+              fails := fails ++ [s!"clause=escrow-to-pool id={pid} denom={d}"]
+          else
+            -- reject / failed handler / failed deposit → back to proposer and community pool
+            if !(dlt escrowAcc d == -(sb + ap) && dlt farmAcc d == 0 && dlt distrAcc d == ap && dcp d == ap * U &&
+                 dlt e.proposer d == sb + dep && dlt govAcc d == -dep) then
+              fails := fails ++ [s!"clause=escrow-refund id={pid} denom={d}"]
+        if !executed && !(C05.sameMap pre.pools post.pools) then fails := fails ++ [s!"clause=escrow-refund-pools id={pid}"]
+      | _, _ => fails := fails ++ [s!"clause=escrow-missing id={pid}"]
+    else if res == "panic" then fails := fails ++ ["clause=gov-endblock-abort"]
+  | _ => pure ()
+  -- the refund of a community-pool farm credits the community pool with what the distribution account receives
+  if isEnd || isDestroyOk then
+    for d in cpds do
+      if dcp d != refundOf d distrAcc * U then
+        fails := fails ++ [s!"clause=refund-community-pool denom={d}"]
   -- fairness against the exact rational reference
   if res == "ok" then
     match op with
